@@ -94,9 +94,13 @@ Do(a) ==
             /\ evals' = evals + Len(pop) /\ calls' = calls + Len(pop)
             /\ res' = R("ok", 0)
             /\ UNCHANGED <<best, arch, shownK>>
-       [] a.op = "evaluate_missing" -> \* configuration asking for an evaluator id that is not registered:
-                                       \* fails in `require`; res.v = number of components that executed
+       [] a.op = "evaluate_missing" -> \* configuration asking for an evaluator id that is not registered, placed
+                                       \* (a.s) at top level / in a loop body / if body / else body taken / else body
+                                       \* not taken: fails in `require`; res.v = number of components that executed
             /\ res' = R("err", 0) /\ UNCHANGED <<pop, best, arch, shownK, evals, calls>>
+       [] a.op = "evaluate_nested" ->  \* scope^(a.s) { evaluate }; evaluate  on a copy of the population: the run
+                                       \* succeeds and makes exactly 2 |pop| objective calls (res.v)
+            /\ res' = R("ok", 2 * Len(pop)) /\ UNCHANGED <<pop, best, arch, shownK, evals, calls>>
        [] a.op = "update_best" ->    \* BestIndividualUpdate: strictly better replaces, first minimum wins
             /\ IF Len(pop) = 0 THEN best' = best
                ELSE LET c == pop[ArgMin(pop, 1, 1)] IN
@@ -136,7 +140,8 @@ Acts ==
   \cup {A("as_solutions_mut", i, s) : i \in Idx, s \in Sols}
   \cup {A("as_solutions", 0, 0), A("round_trip", 0, 0)}
   \cup {A("evaluate_with", i, 0) : i \in Idx} \cup {A("set_objective", i, 0) : i \in Idx}
-  \cup {A("evaluate", 0, par) : par \in {0, 1}} \cup {A("evaluate_missing", 0, 0)}
+  \cup {A("evaluate", 0, par) : par \in {0, 1}} \cup {A("evaluate_missing", 0, pl) : pl \in 0..4}
+  \cup {A("evaluate_nested", 0, dp) : dp \in 1..3}
   \cup (IF AllEvaluated THEN {A("update_best", 0, 0)} ELSE {})
   \cup (IF Len(pop) + Len(arch) <= MaxPop + 1 THEN {A("archive_into_population", 0, 0)} ELSE {})
 
@@ -182,7 +187,8 @@ EvaluateExact ==
 CountOnlyByEvaluate ==
   [][ /\ act'.op # "evaluate" => evals' = evals
       /\ act'.op \notin {"evaluate", "evaluate_with"} => calls' = calls
-      /\ act'.op = "evaluate_missing" => res'.k = "err" /\ res'.v = 0 /\ pop' = pop ]_mvars
+      /\ act'.op = "evaluate_missing" => res'.k = "err" /\ res'.v = 0 /\ pop' = pop
+      /\ act'.op = "evaluate_nested" => res'.k = "ok" /\ res'.v = 2 * Len(pop) /\ pop' = pop ]_mvars
 
 \* C07: the best only improves, is replaced only by a strictly better candidate, and right after an
 \* update is at least as good as everyone in the population it was updated from
